@@ -23,9 +23,10 @@ import (
 // ev is one environment event. Dir "snd" = sent by the DATA sender, "rcv" = sent by the DATA receiver.
 type ev struct {
 	Who    string `json:"who"` // snd | rcv
-	T      string `json:"t"`   // data | iws | mfs | wu
+	T      string `json:"t"`   // data | iws | mfs | wu | hdr (the sender's first HEADERS on the stream) | iws2 (one SETTINGS frame carrying INITIAL_WINDOW_SIZE twice: N then N2)
 	Stream uint32 `json:"s,omitempty"`
 	N      int    `json:"n,omitempty"` // data length / setting value / increment
+	N2     int    `json:"n2,omitempty"`
 	Pad    int    `json:"pad,omitempty"`
 	ES     bool   `json:"es,omitempty"`
 }
@@ -36,6 +37,10 @@ func (e ev) String() string {
 		return fmt.Sprintf("DATA(s%d,%d,pad%d,es=%v)", e.Stream, e.N, e.Pad, e.ES)
 	case "iws":
 		return fmt.Sprintf("SETTINGS(IWS=%d)", e.N)
+	case "iws2":
+		return fmt.Sprintf("SETTINGS(IWS=%d,IWS=%d)", e.N, e.N2)
+	case "hdr":
+		return fmt.Sprintf("HEADERS(s%d)", e.Stream)
 	case "mfs":
 		return fmt.Sprintf("SETTINGS(MFS=%d)", e.N)
 	}
@@ -58,6 +63,9 @@ type scenario struct {
 	// connection window with DATA on a third stream (5) that the receiver never credits back, so that the
 	// connection window, not the stream windows, is what blocks streams 1 and 3.
 	ConnUsed int `json:"connused,omitempty"`
+	// LateHeaders (s2c only): the server's response HEADERS are not part of the opening but events of the
+	// history, so that the client can grant stream credit before anything was relayed toward it on the stream.
+	LateHeaders bool `json:"lateheaders,omitempty"`
 }
 
 type finding struct{ Sig, Desc string }
@@ -83,6 +91,10 @@ func spec(e ev) hw.Spec {
 		return hw.Spec{T: "data", Stream: e.Stream, Len: e.N, Pad: e.Pad, EndStream: e.ES}
 	case "iws":
 		return hw.Spec{T: "settings", Settings: [][2]uint32{{4, uint32(e.N)}}}
+	case "iws2":
+		return hw.Spec{T: "settings", Settings: [][2]uint32{{4, uint32(e.N)}, {4, uint32(e.N2)}}}
+	case "hdr":
+		return hw.Spec{T: "headers", Stream: e.Stream, Fields: [][2]string{{":status", "200"}}}
 	case "mfs":
 		return hw.Spec{T: "settings", Settings: [][2]uint32{{5, uint32(e.N)}}}
 	}
@@ -135,7 +147,7 @@ func run(sc scenario) (body func(), check func(r *vrt.Result) []finding) {
 		w.Client.Write(hw.Spec{T: "headers", Stream: 1, Fields: [][2]string{{":method", "POST"}, {":path", "/a"}, {":scheme", "https"}, {":authority", "o"}}})
 		w.Client.Write(hw.Spec{T: "headers", Stream: 3, Fields: [][2]string{{":method", "POST"}, {":path", "/b"}, {":scheme", "https"}, {":authority", "o"}}})
 		vrt.WaitQuiescent()
-		if sc.Dir == "s2c" {
+		if sc.Dir == "s2c" && !sc.LateHeaders {
 			w.Server.Write(hw.Spec{T: "headers", Stream: 1, Fields: [][2]string{{":status", "200"}}})
 			w.Server.Write(hw.Spec{T: "headers", Stream: 3, Fields: [][2]string{{":status", "200"}}})
 			vrt.WaitQuiescent()
@@ -153,9 +165,13 @@ func run(sc scenario) (body func(), check func(r *vrt.Result) []finding) {
 		dataSeen := 0 // receiver-side DATA events already processed
 		applyGrant := func(e ev) {
 			switch e.T {
-			case "iws":
-				d := e.N - L.iws
-				L.iws = e.N
+			case "iws", "iws2":
+				v := e.N
+				if e.T == "iws2" {
+					v = e.N2 // settings are processed in the order they appear: the last value is the one in force
+				}
+				d := v - L.iws
+				L.iws = v
 				for s := range L.win {
 					L.win[s] += d
 				}
@@ -422,7 +438,23 @@ func alphabet(tier string, reduced bool) []ev {
 func legal(h []ev) bool {
 	ended := map[uint32]bool{}
 	mfs := 16384
+	late := false
 	for _, e := range h {
+		if e.T == "hdr" {
+			late = true
+		}
+	}
+	opened := map[uint32]bool{}
+	for _, e := range h {
+		if e.T == "hdr" {
+			if opened[e.Stream] {
+				return false
+			}
+			opened[e.Stream] = true
+		}
+		if late && e.T == "data" && !opened[e.Stream] {
+			return false // DATA before the stream's HEADERS
+		}
 		if e.T == "data" {
 			if ended[e.Stream] {
 				return false
@@ -515,6 +547,54 @@ func scenarios(tier string) []scenario {
 		{Who: "snd", T: "data", Stream: 1, N: 16385},
 		{Who: "snd", T: "data", Stream: 3, N: 40000},
 		{Who: "rcv", T: "wu", Stream: 0, N: 100000},
+	}
+	// credit granted before anything was relayed toward the receiver on the stream (s2c: the client opened the
+	// streams, the server's HEADERS and DATA are events of the history)
+	lateAlpha := []ev{
+		{Who: "snd", T: "hdr", Stream: 1},
+		{Who: "snd", T: "hdr", Stream: 3},
+		{Who: "snd", T: "data", Stream: 1, N: 5},
+		{Who: "snd", T: "data", Stream: 3, N: 5},
+		{Who: "rcv", T: "wu", Stream: 1, N: 5},
+		{Who: "rcv", T: "wu", Stream: 3, N: 9},
+		{Who: "rcv", T: "wu", Stream: 0, N: 5},
+		{Who: "rcv", T: "iws", N: 4},
+	}
+	for _, root := range []int{0, 4} {
+		d := 4
+		if tier != "quick" {
+			d = 5
+		}
+		lib.Sequences(len(lateAlpha), d, func(seq []int) {
+			if len(seq) != d {
+				return
+			}
+			h := make([]ev, len(seq))
+			for i, x := range seq {
+				h[i] = lateAlpha[x]
+			}
+			if !legal(h) {
+				return
+			}
+			out = append(out, scenario{Dir: "s2c", RootIWS: root, Hist: h, LateHeaders: true})
+		})
+	}
+	// one SETTINGS frame that carries INITIAL_WINDOW_SIZE twice: the values are processed in order, the last one counts
+	dupAlpha := []ev{
+		{Who: "snd", T: "data", Stream: 1, N: 5},
+		{Who: "snd", T: "data", Stream: 3, N: 5},
+		{Who: "rcv", T: "iws2", N: 100000, N2: 2},
+		{Who: "rcv", T: "iws2", N: 2, N2: 100000},
+		{Who: "rcv", T: "iws2", N: 0, N2: 5},
+		{Who: "rcv", T: "wu", Stream: 1, N: 3},
+		{Who: "rcv", T: "iws", N: 4},
+	}
+	for _, dir := range []string{"c2s", "s2c"} {
+		d := 3
+		if tier != "quick" {
+			d = 4
+		}
+		gen(dir, 4, dupAlpha, d)
 	}
 	// cross-talk: the DATA sender announces its own (opposite-direction) settings and credits in between
 	crossAlpha := []ev{
